@@ -16,6 +16,7 @@ from .world import HarnessError, SimAbort, current_actor
 class SimLoop(base_events.BaseEventLoop):
     def __init__(self, world, name, net=None):
         super().__init__()
+        self.on_handle_start = None     # harness hook: called with a handle right before it runs
         self.world = world
         self.name = name
         self.net = net
@@ -120,6 +121,8 @@ class SimLoop(base_events.BaseEventLoop):
             if h._cancelled:
                 continue
             self.handles_run += 1
+            if self.on_handle_start is not None:
+                self.on_handle_start(h)
             h._run()
             h = None
             w.yield_point("handle")
